@@ -23,6 +23,30 @@ pub struct Cfg {
     pub fdt_cenc: u8,
     /// initial clock phase in ms (publish instants fall on .0 / .5 / .9 s)
     pub phase_ms: u64,
+    /// session OTI (inherited by catalogue object 2 and used for the FDT itself): 0 = No-Code (1424, 64),
+    /// 1 = RS GF(2^8) under-specified (512, 32, parity 2), 2 = RS GF(2^8) (256, 32, parity 2)
+    #[serde(default)]
+    pub sess_scheme: u8,
+    /// 1 = object 0 under Raptor, object 3 under RS GF(2^8) under-specified
+    #[serde(default)]
+    pub cat_var: u8,
+}
+
+pub fn catalog_of(cat_var: u8) -> Vec<ObjSpec> {
+    let mut v = catalog();
+    if cat_var == 1 {
+        v[0].oti = Some(OtiSpec::new(Scheme::Raptor, 16, 8, 1, false));
+        v[3].oti = Some(OtiSpec::new(Scheme::Rs28Us, 8, 3, 2, false));
+    }
+    v
+}
+
+pub fn sess_oti(k: u8) -> OtiSpec {
+    match k {
+        1 => OtiSpec::new(Scheme::Rs28Us, 512, 32, 2, true),
+        2 => OtiSpec::new(Scheme::Rs28, 256, 32, 2, true),
+        _ => OtiSpec::new(Scheme::NoCode, 1424, 64, 0, true),
+    }
 }
 
 pub fn catalog() -> Vec<ObjSpec> {
@@ -65,7 +89,7 @@ pub fn catalog() -> Vec<ObjSpec> {
 }
 
 pub fn sess(c: &Cfg) -> SessSpec {
-    let mut s = SessSpec::basic(OtiSpec::new(Scheme::NoCode, 1424, 64, 0, true));
+    let mut s = SessSpec::basic(sess_oti(c.sess_scheme));
     s.full_fdt = c.full_fdt;
     s.fdt_start_id = c.start_id;
     s.fdt_duration_s = c.duration_s;
@@ -84,6 +108,10 @@ pub struct Expect {
     pub complete: bool,
     pub duration_s: u64,
     pub full_fdt: bool,
+    #[serde(default)]
+    pub sess_scheme: u8,
+    #[serde(default)]
+    pub cat_var: u8,
 }
 
 #[derive(Default, Debug, Clone, PartialEq, Eq, Hash)]
@@ -169,7 +197,7 @@ impl Sys10 {
                         _ => now_at(&self.s.log, li, self.cfg.phase_ms),
                     };
                     let id = m.next_id;
-                    m.pubs.insert(id, (Expect { files, publish_ms: t, complete: complete_flag, duration_s: self.cfg.duration_s, full_fdt: self.cfg.full_fdt }, None));
+                    m.pubs.insert(id, (Expect { files, publish_ms: t, complete: complete_flag, duration_s: self.cfg.duration_s, full_fdt: self.cfg.full_fdt, sess_scheme: self.cfg.sess_scheme, cat_var: self.cfg.cat_var }, None));
                     m.next_id = (m.next_id + 1) & 0xFFFFF;
                     if m.next_id == 0 {
                         m.wit_wrap = true;
@@ -187,7 +215,7 @@ impl Sys10 {
                             viol(&mut m, "C10/instance-id-not-successor", msg);
                         }
                         let files = model_files(&self.s, li, self.cfg.full_fdt);
-                        m.pubs.insert(id, (Expect { files, publish_ms: p.t_ms, complete: complete_flag, duration_s: self.cfg.duration_s, full_fdt: self.cfg.full_fdt }, None));
+                        m.pubs.insert(id, (Expect { files, publish_ms: p.t_ms, complete: complete_flag, duration_s: self.cfg.duration_s, full_fdt: self.cfg.full_fdt, sess_scheme: self.cfg.sess_scheme, cat_var: self.cfg.cat_var }, None));
                         m.next_id = (id + 1) & 0xFFFFF;
                         if m.next_id == 0 {
                             m.wit_wrap = true;
@@ -201,12 +229,15 @@ impl Sys10 {
                         let (l, e, b) = p.fti.unwrap_or((0, 0, 0));
                         FdtAsm { id, l, e, b, cenc: p.cenc.unwrap_or(0), ..Default::default() }
                     });
-                    if a.done_at_index.is_some() {
+                    let is_src = a.is_source(p.sbn, p.esi);
+                    if is_src && a.done_at_index.is_some() {
                         a.symbols.clear();
                         a.done_at_index = None;
                     }
-                    a.symbols.insert((p.sbn, p.esi), p.payload.clone());
-                    if a.complete() {
+                    if is_src {
+                        a.symbols.insert((p.sbn, p.esi), p.payload.clone());
+                    }
+                    if is_src && a.complete() {
                         a.done_at_index = Some(li);
                         match a.xml() {
                             None => viol(&mut m, "C10/instance-not-reassemblable", format!("FDT instance {} cannot be reassembled / inflated from its packets", id)),
@@ -344,7 +375,7 @@ impl Sys for Sys10 {
 }
 
 pub fn make(cfg: &Cfg, docs: Arc<Mutex<BTreeMap<(Vec<u8>, String), Expect>>>) -> Sys10 {
-    let mut s = SendSys::new(&sess(cfg), Arc::new(catalog()));
+    let mut s = SendSys::new(&sess(cfg), Arc::new(catalog_of(cfg.cat_var)));
     s.now_ms = cfg.phase_ms;
     Sys10 { cfg: cfg.clone(), s, mon: Mon10::default(), docs, tls: vec![] }
 }
@@ -409,7 +440,6 @@ fn expected_attrs(o: &ObjSpec, toi: &str, sess: &SessSpec, publish_ms: u64) -> (
 
 pub fn check_docs(docs: &BTreeMap<(Vec<u8>, String), Expect>, add: &mut dyn FnMut(String, String, serde_json::Value)) -> (u64, u64) {
     use std::io::Write;
-    let cat = catalog();
     let list: Vec<(&Vec<u8>, &Expect)> = docs.iter().map(|(k, v)| (&k.0, v)).collect();
     // (a) independent XML parser, batched
     // documents go through a file (writing a pipe while the child fills its own output pipe deadlocks)
@@ -439,7 +469,8 @@ pub fn check_docs(docs: &BTreeMap<(Vec<u8>, String), Expect>, add: &mut dyn FnMu
     for ((xml, exp), parsed) in list.iter().zip(lines.iter()) {
         checked += 1;
         let case = json!({"check": "doc", "case": {"xml_hex": hex(xml), "expect": exp}});
-        let scfg = Cfg { full_fdt: exp.full_fdt, start_id: 1, duration_s: exp.duration_s, fdt_cenc: 0, phase_ms: 0 };
+        let cat = catalog_of(exp.cat_var);
+        let scfg = Cfg { full_fdt: exp.full_fdt, start_id: 1, duration_s: exp.duration_s, fdt_cenc: 0, phase_ms: 0, sess_scheme: exp.sess_scheme, cat_var: exp.cat_var };
         let s = sess(&scfg);
         if parsed["ok"] != true {
             add("C10/not-well-formed".into(), format!("independent XML parser rejects an emitted FDT instance: {}", parsed["error"]), case.clone());
@@ -601,12 +632,12 @@ pub fn configs(thorough: bool) -> Vec<Cfg> {
     if !thorough {
         // quick: every value of every axis, every duration once, plus the wrap and sub-second-phase corners
         for (i, d) in durations.iter().enumerate() {
-            v.push(Cfg { full_fdt: i % 2 == 0, start_id: starts[i % 3], duration_s: *d, fdt_cenc: if i % 4 < 2 { 0 } else { 3 }, phase_ms: [0, 500, 900][i % 3] });
+            v.push(Cfg { full_fdt: i % 2 == 0, start_id: starts[i % 3], duration_s: *d, fdt_cenc: if i % 4 < 2 { 0 } else { 3 }, phase_ms: [0, 500, 900][i % 3], sess_scheme: (i % 3) as u8, cat_var: (i % 2) as u8 });
         }
-        v.push(Cfg { full_fdt: true, start_id: starts[2], duration_s: 5, fdt_cenc: 0, phase_ms: 900 });
-        v.push(Cfg { full_fdt: false, start_id: starts[2], duration_s: 3600, fdt_cenc: 3, phase_ms: 0 });
-        v.push(Cfg { full_fdt: true, start_id: 1, duration_s: 10, fdt_cenc: 3, phase_ms: 900 });
-        v.push(Cfg { full_fdt: false, start_id: 0, duration_s: 1, fdt_cenc: 0, phase_ms: 500 });
+        v.push(Cfg { full_fdt: true, start_id: starts[2], duration_s: 5, fdt_cenc: 0, phase_ms: 900, sess_scheme: 0, cat_var: 0 });
+        v.push(Cfg { full_fdt: false, start_id: starts[2], duration_s: 3600, fdt_cenc: 3, phase_ms: 0, sess_scheme: 1, cat_var: 1 });
+        v.push(Cfg { full_fdt: true, start_id: 1, duration_s: 10, fdt_cenc: 3, phase_ms: 900, sess_scheme: 2, cat_var: 0 });
+        v.push(Cfg { full_fdt: false, start_id: 0, duration_s: 1, fdt_cenc: 0, phase_ms: 500, sess_scheme: 0, cat_var: 1 });
         return v;
     }
     for full_fdt in [true, false] {
@@ -618,7 +649,7 @@ pub fn configs(thorough: bool) -> Vec<Cfg> {
                         // every pair of axis values still occurs
                         let k = full_fdt as u64 + (start_id as u64 % 3) + fdt_cenc as u64 + phase_ms / 400 + duration_s % 5;
                         if k % 3 == 0 {
-                            v.push(Cfg { full_fdt, start_id, duration_s, fdt_cenc, phase_ms });
+                            v.push(Cfg { full_fdt, start_id, duration_s, fdt_cenc, phase_ms, sess_scheme: ((duration_s + start_id as u64) % 3) as u8, cat_var: ((phase_ms / 400 + fdt_cenc as u64) % 2) as u8 });
                         }
                     }
                 }
